@@ -50,3 +50,13 @@ Theorem C02_marlin_value_at_every_position :
     (b = true <-> (vk_g (mvk_vk vk) * nth j az 0 + nth j bz 0) * vk_h (mvk_vk vk) * d = 0).
 Proof. exact @marlin_value_change. Qed.
 Print Assumptions C02_marlin_value_at_every_position.
+
+(* multilinear PST: one proof supports one value *)
+From Coq Require Import Arith List.
+From PC Require Import Schemes.MLPC Proofs.MLPCFacts.
+Theorem C02_multilinear_pst_one_value :
+  forall (FO : FieldOps) (FL : FieldLaws FO) vk c z v1 v2 pf,
+    mp_g vk <> 0 -> mp_h vk <> 0 ->
+    ml_check vk c z v1 pf = Ok true -> ml_check vk c z v2 pf = Ok true -> v1 = v2.
+Proof. exact @ml_check_one_value. Qed.
+Print Assumptions C02_multilinear_pst_one_value.
